@@ -10,8 +10,10 @@ Local Open Scope N_scope.
      segs     the lexer's buffer after parsing, as runs of characters with the
               same chain of alias origins (indices into the alias table,
               innermost first)
-     tree     the parsed commands printed (with aliases); tree_plain: the
-              commands parsed from the buffer text without any alias
+     tree     the parsed command lines printed (with aliases); tree_plain: the
+              command lines parsed from the buffer text without any alias
+              (after a syntax error: from the consumed part of the buffer; the
+              lines completed before the error have to be the same)
      trace    executed probe trace with the aliases defined through the shell /
               trace of the buffer text executed without aliases (empty if the
               case was not executed) *)
@@ -39,6 +41,72 @@ Definition mstep_upto (t : table) (k : nat) (s : mstate) : outcome mstate (list 
 Definition sstep_upto (t : table) (k : nat) (s : sstate) : outcome sstate (list (N * chain)) :=
   if Nat.leb k (length (s_out s)) then Fin (rev (s_out s) ++ flat_obs (s_stack s) (s_base s)) else sstep t s.
 
+(* Where substitutions happen, as positions in the final text (computed with
+   the specification).  The claim "the commands are those of the substituted
+   text" is about text; yash-rs (like POSIX) substitutes tokens.  The two differ
+   exactly when an operator token stands directly in front of a replaced word
+   and the text that ends up at that place starts with a character that would
+   extend the operator (`x |a` with a='| y' reads `x || y`; `b;a;; esac` with
+   a='' reads `b;;; esac`): the operator was delimited before the substitution
+   and stays a token of its own.  For such inputs only the buffer-level clauses
+   (2, 3, 4) and the model are checked, not the re-parse / re-execution of the
+   text (5, 7). *)
+Definition subst_pos (t : table) (s : sstate) : option nat :=
+  match lex (flat (s_stack s) (s_base s)) with
+  | inl lx =>
+      match decide_lx (s_ps s) lx with
+      | ATry cmd _ =>
+          match eligible t (read (lx_gap lx) s) (lx_lit lx) cmd with
+          | Some _ => Some (length (s_out s) + length (lx_gap lx))%nat
+          | None => None
+          end
+      | _ => None
+      end
+  | inr _ => None
+  end.
+
+Definition sstep_pos (step : sstate -> outcome sstate (list (N * chain))) (t : table)
+    (sp : sstate * list nat) : outcome (sstate * list nat) (list (N * chain) * list nat) :=
+  let '(s, ps) := sp in
+  match step s with
+  | Cont s' => Cont (s', match subst_pos t s with Some p => p :: ps | None => ps end)
+  | Fin b => Fin (b, ps)
+  | Outside => Outside
+  end.
+
+Definition op_left (c : N) : bool := (c =? 38) || (c =? 59) || (c =? 60) || (c =? 62) || (c =? 124).
+Definition op_right (c : N) : bool :=
+  (c =? 38) || (c =? 59) || (c =? 60) || (c =? 62) || (c =? 124) || (c =? 40) || (c =? 45).
+
+(* [a] consists of the first lines of [b] *)
+Definition line_prefix (a b : str) : bool :=
+  match a with
+  | [] => true
+  | _ => str_eqb (firstn (length a) b) a
+         && match nth_error b (length a) with Some c => c =? 10 | None => true end
+  end.
+
+(* the character in front of position [p], not counting line continuations *)
+Fixpoint char_before (fuel : nat) (text : str) (p : nat) : option N :=
+  match fuel, p with
+  | S fuel', S p' =>
+      match nth_error text p', p' with
+      | Some 10, S p'' =>
+          match nth_error text p'' with
+          | Some 92 => char_before fuel' text p''
+          | _ => Some 10
+          end
+      | x, _ => x
+      end
+  | _, _ => None
+  end.
+
+Definition merges_at (text : str) (p : nat) : bool :=
+  match char_before (S p) text p, nth_error text p with
+  | Some x, Some y => op_left x && op_right y
+  | _, _ => false
+  end.
+
 (* the oracle: boolean clauses evaluated on the implementation's output only *)
 Definition run_case (c : case) : verdict :=
   let '(tl, line, io) := c in
@@ -50,20 +118,20 @@ Definition run_case (c : case) : verdict :=
     let ibuf := unsegment t segs in
     if negb (chains_ok t ibuf) then 3                (* substituted within its own replacement *)
     else
-      match (if status =? 0 then spec_run t line
-             else run (sstep_upto t lexed) (fuel_of t line) (s_init line)) with
+      match run (sstep_pos (if status =? 0 then sstep t else sstep_upto t lexed) t)
+                (fuel_of t line) (s_init line, []) with
       | ROutside | ROutOfFuel => 99
-      | RFin sbuf =>
-          if left_merge sbuf then 99
-          else
+      | RFin (sbuf, poss) =>
+            let textual := negb (existsb (merges_at (text_of sbuf)) poss) in
             let n := if status =? 0 then length sbuf else lexed in
             let same_as (b : list (N * chain)) : bool :=
               if status =? 0 then obs_eqb ibuf b else obs_eqb (firstn n ibuf) (firstn n b) in
             if negb (if status =? 0 then str_eqb (text_of ibuf) (text_of sbuf)
                      else str_eqb (firstn n (text_of ibuf)) (firstn n (text_of sbuf))) then 2
             else if negb (same_as sbuf) then 4
-            else if (status =? 0) && negb (str_eqb (fst trees) (snd trees)) then 5
-            else if negb (str_eqb (fst traces) (snd traces)) then 7
+            else if textual && negb (if status =? 0 then str_eqb (fst trees) (snd trees)
+                                     else line_prefix (fst trees) (snd trees)) then 5
+            else if textual && negb (str_eqb (fst traces) (snd traces)) then 7
             else
               match (if status =? 0 then model_run t line
                      else run (mstep_upto t lexed) (fuel_of t line) (m_init line)) with
